@@ -110,7 +110,50 @@ ATOMS = [
 ]
 
 
+def alpha_macro(t):
+    """Metavariables and closure parameters of a macro body are bound names: number them in order of first appearance."""
+    names = []
+    for m in re.finditer(r"\$(\w+)", t):
+        if m.group(1) not in names:
+            names.append(m.group(1))
+    for i, n in enumerate(names):
+        t = re.sub(r"\$" + n + r"\b", f"$m{i}", t)
+    cl = []
+    for m in re.finditer(r"\|(\w+)\|", t):
+        if m.group(1) not in cl:
+            cl.append(m.group(1))
+    for i, n in enumerate(cl):
+        t = re.sub(r"(?<![\w$])" + n + r"\b", f"c{i}", t)
+    return t
+
+
+def canon(s):
+    """Spelling differences that mean the same: the path to size_of / size_of_val, method calls written as
+    `Type::method(self)`."""
+    s = re.sub(r"(?<![\w:])(?:(?:::)?(?:std|core)::)?(?:mem::)?(size_of(?:_val)?)(?=::<|\()", r"mem::\1", s)
+    s = re.sub(r"(?<![\w:])(?:<[^<>]*>|\w+(?:::<[^<>]*>)?)::(capacity|as_slice|hasher|iter|keys|values|len|as_bytes_with_nul|as_ref|start|end)\(&?self\)", r"self.\1()", s)
+    s = re.sub(r"\.expect\(\"[^\"]*\"\)", ".unwrap()", s)
+    # a receiver that a let-inlining put in parentheses
+    for _ in range(3):
+        s = re.sub(r"\((self(?:\.\w+(?:\(\))?)+)\)\.", r"\1.", s)
+    # bindings of match arms are bound names
+    for ctor, name in (("Some", "v"), ("Ok", "v"), ("Err", "e")):
+        m = re.search(ctor + r"\((\w+)\)=>", s)
+        if m and m.group(1) != name and not re.search(r"\b" + name + r"\b", s):
+            s = re.sub(r"\b" + m.group(1) + r"\b", name, s)
+    # field names of the private flat iterator
+    s = re.sub(r"SizedArrayFlatIterator\{\w+:SliceIter::default\(\),\w+:make_iter\(\),?\}",
+               "SizedArrayFlatIterator{current_section:SliceIter::default(),subsequent_sections:make_iter(),}", s)
+    # closure parameters are bound names: |w| &w.0  ==  |item| &item.0
+    for m in list(re.finditer(r"\|(\w+)\|", s)):
+        v = m.group(1)
+        if v != "item" and not re.search(r"\bitem\b", s):
+            s = re.sub(r"\b" + v + r"\b", "item", s)
+    return s
+
+
 def atom(s):
+    s = canon(s)
     for rx, lean in ATOMS:
         if re.fullmatch(rx, s):
             return lean
@@ -127,6 +170,21 @@ def normalise_body(body):
     final = stmts[-1]
     env = {}
     for st in stmts[:-1]:
+        # destructuring: `let Range { start, end } = self;`  /  `let (a, b) = (X, Y);`
+        m = re.match(r"let\s+\w+\s*\{([\w\s,]*)\}\s*=\s*self$", st, flags=re.S)
+        if m:
+            for f in m.group(1).split(","):
+                if f.strip():
+                    env[f.strip()] = "self." + f.strip()
+            continue
+        m = re.match(r"let\s*\(([\w\s,]*)\)\s*=\s*\((.*)\)$", st, flags=re.S)
+        if m:
+            names = [x.strip() for x in m.group(1).split(",") if x.strip()]
+            vals = [x.strip() for x in split_top(m.group(2), ",") if x.strip()]
+            if len(names) == len(vals):
+                for n_, v_ in zip(names, vals):
+                    env[n_] = v_
+                continue
         m = re.match(r"let\s+(\w+)\s*(?::[^=]*)?=\s*(.*)$", st, flags=re.S)
         if not m:
             return "[[" + atom("".join(inner.split())) + "]]"
@@ -134,7 +192,7 @@ def normalise_body(body):
     # inline lets (a few rounds: bindings may use earlier ones)
     for _ in range(6):
         for k, v in env.items():
-            final = re.sub(r"\b" + k + r"\b", "(" + v + ")", final)
+            final = re.sub(r"(?<![\w.])" + k + r"\b", "(" + v + ")", final)
     flat = "".join(final.split())
     # strip redundant outer parentheses of terms
     def unparen(t):
@@ -190,7 +248,16 @@ def methods_of(block):
         if k < 0 or k >= len(block):
             continue
         end = balanced(block, k)
-        out[name] = block[k:end]
+        body = block[k:end]
+        # the single parameter of a bulk helper is a bound name
+        canon_param = {"heap_size_sum_iter": "make_iter", "heap_size_sum_exact_size_iter": "make_iter",
+                       "value_size_sum_iter": "iterator", "value_size_sum_exact_size_iter": "iterator"}.get(name)
+        if canon_param:
+            sig = block[j:k]
+            pm = re.search(r"\(\s*(\w+)\s*:", sig[sig.rfind("(", 0, sig.find(")") if ")" in sig else len(sig)):] if "(" in sig else "")
+            if pm and pm.group(1) not in (canon_param, "self") and not re.search(r"\b" + canon_param + r"\b", body):
+                body = re.sub(r"\b" + pm.group(1) + r"\b", canon_param, body)
+        out[name] = body
     return out
 
 
@@ -227,12 +294,12 @@ def main():
         mt = re.search(r"macro_rules!\s*tuple_heap_size\s*\{", src)
         if not mt:
             raise Err("macro tuple_heap_size not found")
-        tblock = "".join(src[mt.end() - 1:balanced(src, mt.end() - 1)].split())
-        tuple_ok = ("0$(+$ts.heap_size())+" in tblock
-                    and "tuple_heap_size!(@sum_iter_termsheap_size_sum_iter,make_iter,$($ts),+;($($ts),+))" in tblock
-                    and "tuple_heap_size!(@sum_iter_termsheap_size_sum_exact_size_iter,make_iter,$($ts),+;($($ts),+))" in tblock
-                    and "0$(+$ts::$sum_iter(||$make_iter().map(|tuple|tuple_heap_size!(@extract_from_tupletuple,$ts,$types))))+" in tblock
-                    and "let($($ts,)+)=$tuple;$extracted" in tblock)
+        tblock = "".join(alpha_macro(src[mt.end() - 1:balanced(src, mt.end() - 1)]).split())
+        tuple_ok = ("0$(+$m0.heap_size())+" in tblock
+                    and "tuple_heap_size!(@sum_iter_termsheap_size_sum_iter,make_iter,$($m0),+;($($m0),+))" in tblock
+                    and "tuple_heap_size!(@sum_iter_termsheap_size_sum_exact_size_iter,make_iter,$($m0),+;($($m0),+))" in tblock
+                    and "0$(+$m0::$m1(||$m2().map(|c0|tuple_heap_size!(@extract_from_tuplec0,$m0,$m3))))+" in tblock
+                    and "let($($m0,)+)=$m4;$m5" in tblock)
         arities = sorted(len(split_top(a, ",")) for a in re.findall(r"^tuple_heap_size!\(([^)@]*)\);", src, flags=re.M))
         # trait defaults and blanket impls
         th = re.search(r"pub\s+trait\s+HeapSize\s*\{", src)
@@ -289,10 +356,10 @@ def main():
     L.append("def valueDefaults : List Body := [" + ", ".join(normalise_body(vms.get(k, "{missing}")) for k in ("value_size_sum_iter", "value_size_sum_exact_size_iter")) + "]")
     L.append("def sizedValue : List Body := [" + ", ".join(normalise_body(sms.get(k, "{missing}")) for k in ("value_size", "value_size_sum_iter", "value_size_sum_exact_size_iter")) + "]")
     L.append("def memSizeBody : Body := " + normalise_body(mms.get("mem_size", "{missing}")))
-    L.append("/-- `ValueSize` impls of unsized types: " + ", ".join(t for t, _ in unsized_vs) + " -/")
+    L.append("/-- `ValueSize` impls of unsized types: " + ", ".join(sorted(t for t, _ in unsized_vs)) + " -/")
     L.append("def unsizedValue : List Body := [" + ", ".join(b for _, b in sorted(unsized_vs)) + "]")
     L.append(f"def unsizedValueCount : Nat := {len(unsized_vs)}")
-    L.append(f"/-- `SizedArrayFlatIterator::next` is a loop that never calls itself (body fingerprint {flat_norm}) -/")
+    L.append(f"/-- `SizedArrayFlatIterator::next` is a loop that never calls itself -/")
     L.append(f"def flatNextLoops : Bool := {'true' if flat_loops else 'false'}")
     L.append("")
     L.append("end LruMem.GeneratedMem")
